@@ -202,11 +202,45 @@ def one_program(acc, probe, rng, cli):
     return files, listing
 
 
+def same_stem_cases(acc, rng, count):
+    """`mos build` names a listing after its source file: every source file of a project whose files share a stem (same name in
+    two directories, names that differ only in the extension) must still have a listing of its own lines."""
+    from .c10 import same_stem_project
+    for _ in range(count):
+        kind, files = same_stem_project(rng)
+        acc.evaluations += 1
+        with TempProject(files, "[build]\nlisting = true\n") as tp:
+            r = run_mos(["--no-color", "-e", "Short", "build"], tp.dir)
+            if r["rc"] != 0:
+                acc.inconc("same-stem project did not build: %s" % r["out"][-120:])
+                continue
+            listings = {}
+            tdir = os.path.join(tp.dir, "target")
+            for base, _, fns in os.walk(tdir):
+                for fn in fns:
+                    if fn.endswith(".lst"):
+                        listings[os.path.relpath(os.path.join(base, fn), tdir)] = open(os.path.join(base, fn)).read()
+        acc.count("cli.same_stem_builds")
+        owner = {}
+        for fname, text in sorted(files.items()):
+            want = [l.strip() for l in text.split("\n") if l.strip()]
+            mine = [n_ for n_, l in sorted(listings.items()) if all(any(row.rstrip().endswith(w) for row in l.split("\n")) for w in want)]
+            if not mine:
+                acc.violation("cli|listing-missing|files-sharing-a-stem", "no listing shows the lines of %s (listings written: %s)" % (fname, sorted(listings)),
+                              {"files": files, "listings": listings, "project_kind": kind})
+                break
+            owner[fname] = mine
+        else:
+            acc.nontriv("same-stem", tuple(sorted(files.items())))
+            acc.cover("same_stem_kinds", kind)
+
+
 def shard(idx, n, seed, tier, params):
     acc = Acc()
     probe = Probe()
     rng = rng_for(seed, "c11", idx)
     t_end = time.time() + params["budget"]
+    same_stem_cases(acc, rng, max(1, (24 if tier == "quick" else 600) // n))
     for i in range(params["programs"] // n):
         if time.time() > t_end:
             acc.count("budget_cut")
@@ -228,7 +262,8 @@ def main(tier, seed):
              "certificate checker; the walker's emission record (statement span, target address, length, macro invocation) is the ground "
              "truth. Source-map entries must equal it as a multiset in both macro attribution modes; listings (bytes per row 1..16) must "
              "show every source line once and in order, after each address the bytes of that line in emission order, every emitted byte "
-             "exactly once; every 15th program is also built by `mos build` with listing = true and the .lst files compared. "
+             "exactly once; every 15th program is also built by `mos build` with listing = true and the .lst files compared; "
+             "projects whose source files share a file stem are built by `mos build`: every source file must have a listing of its own lines. "
              "Non-trivial = distinct program whose source map matched in both modes.",
         assumptions=["one statement per line (plain layout), so line <-> statement is exact",
                      "a row's address is the target address of its first byte; rows of a line whose bytes are not contiguous (loop bodies) continue in emission order"])
